@@ -6,10 +6,10 @@ import solvercorr as sc
 import solverslices
 from props.c04 import TRUSTED
 
-THEOREMS = ["C06_source_shift", "C06_tower_shift", "C06_recentre"]
+THEOREMS = ["C06_source_shift", "C06_tower_shift", "C06_recentre", "C06_point_reflection", "C06_unit_source_cells"]
 ASSUMPTIONS = [
     "theorems are on the periodic domain (px = py = 0: halo observed through explicit padding) and for double-precision storage",
-    "the point-reflection clause (footprint_n0[m] = response to a unit source at n0 evaluated at 2*n0 - m) follows from C02_reciprocity with a unit source + C06_source_shift; it is checked directly by the oracle",
+    "the point-reflection clause is the theorem C06_point_reflection (footprint_n0[m] = response to a unit source at n0 evaluated at (2*n0 - m) mod n, periodic domain, double storage), proved from C02 reciprocity with a unit source at m and C06 source roll; the oracle checks it directly on the code as well",
 ]
 
 
